@@ -163,4 +163,19 @@ theorem swapToSend_balanced {srt : Sorter} (hs : srt.OK) {m : Mint} {inactive ac
     rw [h1, hsend, hcs, hchange]
     omega
 
+theorem splitExps_length_le (fuel pos n : Nat) : (splitExps fuel pos n).length ≤ fuel := by
+  induction fuel generalizing pos n with
+  | zero => simp [splitExps]
+  | succ fuel ih =>
+    simp only [splitExps]
+    split
+    · simp
+    · split
+      · have := ih (pos + 1) (n / 2); simp only [List.length_cons]; omega
+      · have := ih (pos + 1) (n / 2); omega
+
+/-- `AmountSplit` never returns more than 64 amounts. -/
+theorem amountSplit_length_le (a : UInt64) : (amountSplit a).length ≤ 64 := by
+  rw [amountSplit_length]; exact splitExps_length_le 64 0 a.toNat
+
 end Gonuts.Model.Select
